@@ -1893,6 +1893,8 @@ package engine
 //@ func Sort
 //@   property C08
 //@   nosafety
+//@   at-store ListIterator.List requires[the-lists-walked-are-the-two-arguments-as-given] v == list || v == sorted
+//@   at-store ListIterator.Env requires[the-list-is-walked-under-the-caller-s-bindings] v == env
 //@   bind cur = (*ListIterator).Current#1
 //@   bind s = (*Env).set#1
 //@   at-call append requires[every-element-of-the-list-is-collected] a0 == elems && len(a1) == 1 && called(cur) && a1[0] == resolve(env, cur)
@@ -1903,6 +1905,8 @@ package engine
 //@ func KeySort
 //@   property C08
 //@   nosafety
+//@   at-store ListIterator.List requires[the-lists-walked-are-the-two-arguments-as-given] v == pairs || v == resolve(env, sorted)
+//@   at-store ListIterator.Env requires[the-list-is-walked-under-the-caller-s-bindings] v == env
 //@   at-call sort.SliceStable requires[keysort-is-a-stable-sort] true
 //@   frozen env
 //@   bind cur = (*ListIterator).Current#1
